@@ -382,8 +382,8 @@ impl Configuration {
         rng: &mut RNG,
         datarate: DR,
         frame: &Frame,
-    ) -> (TxConfig, TxChannel) {
-        let tx_channel = self.select_tx_channel(rng, datarate, frame);
+    ) -> Option<(TxConfig, TxChannel)> {
+        let tx_channel = self.select_tx_channel(rng, datarate, frame)?;
         let tx_config = TxConfig {
             // We can do this safely, as default output power will be positive
             pw: self.check_tx_power(0).unwrap().unwrap() as i8,
@@ -397,7 +397,7 @@ impl Configuration {
                 max_payload_len: tx_channel.datarate.max_mac_payload_size,
             },
         };
-        (tx_config, tx_channel)
+        Some((tx_config, tx_channel))
     }
 
     pub(crate) fn get_datarate(&self, dr: u8) -> Option<&Datarate> {
@@ -417,7 +417,7 @@ impl Configuration {
         rng: &mut RNG,
         datarate: DR,
         frame: &Frame,
-    ) -> TxChannel {
+    ) -> Option<TxChannel> {
         mut_region_dispatch!(self, select_tx_channel, rng, datarate, frame)
     }
 
@@ -562,12 +562,14 @@ pub(crate) trait RegionHandler {
         DR::_0
     }
 
+    /// Pick the channel for the next uplink; `None` when the region does not define `datarate`
+    /// or no channel usable with it is both defined and enabled.
     fn select_tx_channel<RNG: RngCore>(
         &mut self,
         rng: &mut RNG,
         datarate: DR,
         frame: &Frame,
-    ) -> TxChannel;
+    ) -> Option<TxChannel>;
 
     fn get_rx_datarate(&self, datarate: DR, rx1_dr_offset: u8, window: &Window) -> DR;
     fn get_rx2_frequency(&self) -> u32;
